@@ -365,6 +365,24 @@ def _dotted_const(c: ast.AST) -> bool:
     return isinstance(c, ast.Attribute) and isinstance(c.value, ast.Name) and c.attr.isupper()
 
 
+def _truthiness(v: ast.AST) -> bool | None:
+    """truth value of the returned expression when it is certain: a literal, an empty / non-empty display"""
+    if isinstance(v, ast.Constant):
+        return bool(v.value)
+    if isinstance(v, (ast.List, ast.Tuple, ast.Set)):
+        if not v.elts:
+            return False
+        return True if any(not isinstance(e, ast.Starred) for e in v.elts) else None
+    if isinstance(v, ast.Dict):
+        if not v.keys:
+            return False
+        return True if any(k is not None for k in v.keys) else None
+    if isinstance(v, ast.IfExp):
+        a, b = _truthiness(v.body), _truthiness(v.orelse)
+        return a if a is not None and a == b else None
+    return None
+
+
 def _equals_const(v: ast.AST, const_text: str) -> bool | None:
     """is the returned expression `v` certainly equal / certainly different from the constant? (None: cannot tell)"""
     if isinstance(v, ast.IfExp):
@@ -737,7 +755,7 @@ def _expand(fi: FuncInfo, caller_names: set[str], st: ast.stmt, select: Callable
                 tval = val.elts[thread[2]] if isinstance(val, ast.Tuple) and len(val.elts) == thread[3] else ast.Name(id="?", ctx=ast.Load())
             if thread[4] is not None:
                 # test of the result against a constant (status value): decided where the returned expression is a constant
-                eq = (bool(tval.value) if isinstance(tval, ast.Constant) else None) if thread[4] == "<truthy>" else _equals_const(tval, thread[4])
+                eq = _truthiness(tval) if thread[4] == "<truthy>" else _equals_const(tval, thread[4])
                 if eq is None:
                     res.append(clone(follow_if))
                 else:
